@@ -360,6 +360,13 @@ func TestVerifC06Real(t *testing.T) {
 	for i := 0; i < 4; i++ {
 		counts = append(counts, 1+rng.Intn(3*batch+5))
 	}
+	if batch < 10 {
+		// shrunk thresholds: many more addresses, up to 6 full batches each (keeps the number of distinct
+		// batch counts below the shrunk popRank list size, as it is with the real constants)
+		for i := 0; i < 26; i++ {
+			counts = append(counts, 1+rng.Intn(6*batch+1))
+		}
+	}
 	type slotT struct {
 		name string
 		left int
@@ -372,7 +379,8 @@ func TestVerifC06Real(t *testing.T) {
 		addrs = append(addrs, name)
 	}
 	var pushes []c06Push
-	periodic := os.Getenv("VERIF_C06_PERIODIC") == "1"
+	periodic := os.Getenv("VERIF_C06_PERIODIC") != ""        // pushes at slot%500==0 (partial flush of small lists)
+	withBulk := os.Getenv("VERIF_C06_PERIODIC") == "1" // plus > 100 000 distinct addresses (real threshold)
 	id := 0
 	add := func(names []string, slot uint64) {
 		id++
@@ -380,7 +388,7 @@ func TestVerifC06Real(t *testing.T) {
 	}
 	slot := uint64(1)
 	bulk := 0
-	if periodic {
+	if withBulk {
 		// >100 000 distinct addresses with one entry each, then a push at slot%500==0 flushes the small lists
 		bulk = 100_050
 		for i := 0; i < bulk; i++ {
@@ -406,14 +414,14 @@ func TestVerifC06Real(t *testing.T) {
 			names = append(names, pool[ix].name)
 			pool[ix].left--
 		}
-		if periodic && rng.Intn(50) == 0 {
+		if withBulk && rng.Intn(50) == 0 {
 			names = append(names, fmt.Sprintf("a%d", 1000+rng.Intn(bulk))) // second record for a bulk address
 			if len(addrs) < 120 {
 				addrs = append(addrs, names[len(names)-1])
 			}
 		}
 		s := slot
-		if periodic && rng.Intn(40) == 0 {
+		if periodic && rng.Intn(map[bool]int{true: 40, false: 5}[withBulk]) == 0 {
 			s = (slot/500 + 1) * 500
 			slot = s
 		}
